@@ -55,7 +55,8 @@ def rand_stroke_path(rng):
                 e = rng.choice([1e-3, 1e-2, 0.1])
                 sgn = rng.choice([1, -1])
                 q2 = (q[0] + sgn * d[0] - e * d[1], q[1] + sgn * d[1] + e * d[0])
-                ops += [1, f2b(q[0]), f2b(q[1]), 1, f2b(round(q2[0], 3)), f2b(round(q2[1], 3))]
+                q2 = (round(q2[0], 3), round(q2[1], 3))
+                ops += [1, f2b(q[0]), f2b(q[1]), 1, f2b(q2[0]), f2b(q2[1])]
                 last = q2
             elif t < 0.72:  # axis-aligned right angle
                 q = (last[0] + rng.choice([-20, 15, 30]), last[1])
@@ -64,10 +65,30 @@ def rand_stroke_path(rng):
                 last = q2
             elif t < 0.87:
                 a, b = P(), P()
+                dk = rng.random()
+                if dk < 0.08:
+                    a = last                                   # control point on the start point
+                elif dk < 0.16:
+                    a = b                                      # control point on the end point
+                elif dk < 0.22:                                # collinear, control point beyond the end point
+                    a = (b[0] + 0.5 * (b[0] - last[0]), b[1] + 0.5 * (b[1] - last[1]))
                 ops += [2, f2b(a[0]), f2b(a[1]), f2b(b[0]), f2b(b[1])]
                 last = b
             else:
                 a, b, c2 = P(), P(), P()
+                dk = rng.random()
+                if dk < 0.07:
+                    a = last                                   # P0 == P1
+                elif dk < 0.14:
+                    b = c2                                     # P2 == P3
+                elif dk < 0.19:
+                    a, b = last, c2                            # a straight cubic
+                elif dk < 0.24:
+                    b = a                                      # P1 == P2
+                elif dk < 0.28:                                # collinear with control points outside the end points
+                    d = (c2[0] - last[0], c2[1] - last[1])
+                    a = (last[0] - 0.3 * d[0], last[1] - 0.3 * d[1])
+                    b = (c2[0] + 0.4 * d[0], c2[1] + 0.4 * d[1])
                 ops += [3, f2b(a[0]), f2b(a[1]), f2b(b[0]), f2b(b[1]), f2b(c2[0]), f2b(c2[1])]
                 last = c2
         if rng.random() < 0.35:
@@ -83,6 +104,43 @@ def gen_cases(rng, tier):
         miter = rng.choice([0.5, 1.0, 1.05, 1.2, 1.41, 1.5, 2.0, 4.0, 4.0, 10.0, 20.0])
         res = rng.choice([1.0, 1.0, 1.0, 0.25, 4.0])
         cases.append(("stroke_geo", [f2b(width), f2b(miter), rng.randrange(3), rng.randrange(4), f2b(res)] + rand_stroke_path(rng)))
+    # gentle curves with a degenerate control point at one end, followed / preceded by a line or ending in a cap:
+    # the end normal of the curve decides the cap and the join
+    for i in range(300 if q else 4000):
+        width = rng.choice([4.0, 10.0, 20.0, 40.0])
+        L = rng.uniform(6, 12) * width
+        a0 = rng.uniform(0, 6.283)
+        turn = rng.uniform(0.3, 1.2) * rng.choice([-1, 1])
+        def pol(o, ang, d):
+            return (round(o[0] + d * math.cos(ang), 2), round(o[1] + d * math.sin(ang), 2))
+        p0 = (round(rng.uniform(-50, 50), 2), round(rng.uniform(-50, 50), 2))
+        p1 = pol(p0, a0, L / 2)
+        p3 = pol(p1, a0 + turn, L / 2)
+        ops = [0, f2b(p0[0]), f2b(p0[1])]
+        kind = rng.randrange(6)
+        pre = rng.random() < 0.4
+        if pre:
+            pm = pol(p0, a0 + math.pi + rng.uniform(-0.8, 0.8), L / 2)
+            ops = [0, f2b(pm[0]), f2b(pm[1]), 1, f2b(p0[0]), f2b(p0[1])]
+        if kind == 0:
+            ops += [3, f2b(p1[0]), f2b(p1[1]), f2b(p3[0]), f2b(p3[1]), f2b(p3[0]), f2b(p3[1])]      # P2 == P3
+        elif kind == 1:
+            ops += [3, f2b(p0[0]), f2b(p0[1]), f2b(p1[0]), f2b(p1[1]), f2b(p3[0]), f2b(p3[1])]      # P0 == P1
+        elif kind == 2:
+            ops += [3, f2b(p1[0]), f2b(p1[1]), f2b(p1[0]), f2b(p1[1]), f2b(p3[0]), f2b(p3[1])]      # P1 == P2
+        elif kind == 3:
+            ops += [2, f2b(p1[0]), f2b(p1[1]), f2b(p3[0]), f2b(p3[1])]
+        elif kind == 4:
+            ops += [3, f2b(p0[0]), f2b(p0[1]), f2b(p3[0]), f2b(p3[1]), f2b(p3[0]), f2b(p3[1])]      # a straight cubic
+        else:
+            pa, pb_ = pol(p0, a0, L / 3), pol(p3, a0 + turn + math.pi, L / 3)
+            ops += [3, f2b(pa[0]), f2b(pa[1]), f2b(pb_[0]), f2b(pb_[1]), f2b(p3[0]), f2b(p3[1])]
+        if rng.random() < 0.5:
+            pn = pol(p3, a0 + turn + rng.uniform(-1.0, 1.0), L / 2)
+            ops += [1, f2b(pn[0]), f2b(pn[1])]
+        if rng.random() < 0.15:
+            ops += [4]
+        cases.append(("stroke_geo", [f2b(width), f2b(rng.choice([1.0, 2.0, 4.0, 10.0])), rng.randrange(3), rng.randrange(4), f2b(1.0)] + ops))
     return cases
 
 
@@ -97,7 +155,8 @@ def oracle(suite, args, out):
                 o[4], joins[args[3] % 4], o[5] / 1000.0, o[6] / 1000.0, o[7] / 1000.0)
             return ("MITERCLIP: " + s) if args[3] % 4 == 1 else s
         if o[2] > 0:
-            return "%d of %d points within half the stroke width of a straight piece are not covered (first (%.3f,%.3f))" % (o[2], o[1], o[6] / 1000.0, o[7] / 1000.0)
+            where = {1: "a straight piece", 4: "an end point with a round cap", 5: "the square cap box beyond an end point", 6: "a vertex with a round join"}.get(o[8], "the path")
+            return "%d of %d points within half the stroke width of %s are not covered (first (%.3f,%.3f))" % (o[2], o[1], where, o[6] / 1000.0, o[7] / 1000.0)
         if o[10] > 0:
             return "%d of %d zero-length contours did not get their round / square dot" % (o[10], o[9])
     return None
